@@ -155,24 +155,30 @@ def gen_plan(rng, tier, index=0):
         progs.append(prog)
     if index % 2 == 0:
         # a sweeping caller (every second program): one function after the other - chosen by the run index, so that every
-        # registered function is swept within ~2 x len(ENTRIES) runs - is called with the same scalars, defaults left out, on
+        # registered function is swept by the programs of the order stage - is called with the same scalars, defaults left out, on
         # every array it accepts for its first two array parameters (two image sizes, several dtypes and layouts, both byte orders). State that the
         # first call pins (a mutated default argument, a cache keyed on too little) shows when the order stage reverses it.
         r = rng.sub("sweep")
         prog = []
+        # the order stage takes every `spacing`-th program: consecutive order-stage programs sweep consecutive functions
+        spacing = max(1, sizes(tier)["runs"] // max(1, sizes(tier)["order"]))
         for j in range(3):
-            e = registry.ENTRIES[(index // 2 + 31 * j) % len(registry.ENTRIES)]
+            e = registry.ENTRIES[(index // spacing + 31 * j) % len(registry.ENTRIES)]
             if not e["arrays"]:
                 continue
             st0 = gen_call(r, heap, z, by_cat, e)
+            # two draws of the scalar arguments (a default left out in one of them is enough), first array parameter swept with both
+            variants = [st0["s"], e["scalars"](r.sub("again", j), z)]
             for p0, cats0 in e["arrays"][:2]:
                 cands = [i for c in cats0 if c for i in by_cat.get(c, [])]
-                for i in cands[:5]:
-                    st = dict(st0)
-                    st["a"] = dict(st0["a"])
-                    st["a"][p0] = i
-                    st.update({"omit": True, "poison": False, "scribble": False})
-                    prog.append(st)
+                for vi, sv in enumerate(variants if p0 == e["arrays"][0][0] else variants[:1]):
+                    for i in cands[:5]:
+                        st = dict(st0)
+                        st["s"] = sv
+                        st["a"] = dict(st0["a"])
+                        st["a"][p0] = i
+                        st.update({"omit": True, "poison": False, "scribble": False})
+                        prog.append(st)
         if prog:
             progs.append(prog)
             n_callers += 1
